@@ -229,6 +229,18 @@ fn algebra(case: &mut Case) -> Result<(), String> {
         fill_band_model(&mut e, r, k, off, s);
         cmp(&t, &e, r, k, &format!("fill_band({})", off))?;
     }
+    // offsets far outside the matrix (the argument is an isize): nothing may change - also when the offset is a small
+    // number modulo 2^32 or 2^16
+    for base in [1i64 << 16, 1 << 31, 1 << 32, 1 << 33, 1 << 48, 1 << 62] {
+        for d in [-2i64, -1, 0, 1, 2] {
+            for sign in [1i64, -1] {
+                let off = sign * base + d;
+                let mut t = ma.clone();
+                t.fill_band(off as isize, s);
+                cmp(&t, &a, r, k, &format!("fill_band({}) (band outside the matrix)", off))?;
+            }
+        }
+    }
     let (lo, di, up) = (gen::rat(&mut case.src), gen::rat(&mut case.src), gen::rat(&mut case.src));
     let mut t = ma.clone();
     t.fill_tridiag(lo, di, up);
@@ -536,6 +548,26 @@ fn norms(case: &mut Case) -> Result<(), String> {
     let got = m.norm_p(p);
     if !((got - refp).abs() <= tol) {
         return Err(format!("norm_p({}) = {}, expected {} (tol {:.2e})", p, got, refp, tol));
+    }
+    // large exponents on entries of modulus <= 1 (no power overflows): several entries of maximal modulus make the
+    // p-norm differ from the max norm by the factor count^(1/p)
+    {
+        let pl = [16.0, 64.0, 256.0, 1024.0, 4096.0, 1e5][case.src.usize_below(6)];
+        let nmx = if nm > 0.0 { nm } else { 1.0 };
+        let mut mn = Matrix::<f64>::new(r, c, 0.0);
+        let mut sum = Dd::ZERO;
+        for i in 0..r {
+            for j in 0..c {
+                let v = a[i][j] / nmx;
+                mn[(i, j)] = v;
+                sum = sum + Dd::from(v.abs().powf(pl));
+            }
+        }
+        let refl = sum.to_f64().powf(1.0 / pl);
+        let got = mn.norm_p(pl);
+        if !((got - refl).abs() <= 4.0 * EPS * (r * c + 4) as f64 * refl.max(1e-300)) {
+            return Err(format!("norm_p({}) of a matrix with entries of modulus <= 1 = {}, expected {}", pl, got, refl));
+        }
     }
     let mut s2 = Dd::ZERO;
     for x in a.iter().flatten() {
@@ -884,9 +916,9 @@ impl Prop for C03 {
     fn rule(&self) -> String {
         "four case families selected by the first choice: (0) algebra: shape triple (r,k,c) in 0..=8^3 (all 729 enumerated in every run, plus random ones), \
          random small rationals; every operator/method of Matrix (products in borrowed and owned form, +,-,neg, scalar ops, compound assignments, transposes, eye, \
-         row/column get/set for every column index, swap/delete/fill*/fill_band for every offset -9..9, resize to every target shape <= 8 (thorough) or a stride of them (quick), clear) \
+         row/column get/set for every column index, swap/delete/fill*/fill_band for every offset -9..9 and for offsets +-2^16, 2^31, 2^32, 2^33, 2^48, 2^62 (+-2) that must change nothing, resize to every target shape <= 8 (thorough) or a stride of them (quick), clear) \
          compared entry-by-entry and by shape with a Vec<Vec<Rat>> model; (1) histories of <= 40 editing steps on one matrix against the model, full comparison \
-         (shape, numel, every entry, every row and column getter) after every step; (2) norms of integer-valued f64 matrices (norm_1/inf/max exact, norm_p/frob vs double-double) and f64*Matrix; \
+         (shape, numel, every entry, every row and column getter) after every step; (2) norms of integer-valued f64 matrices (norm_1/inf/max exact, norm_p for p in [1,8] and, on entries of modulus <= 1, p in {16, 64, 256, 1024, 4096, 1e5}, norm_frob vs double-double) and f64*Matrix; \
          (2b) the arithmetic of (1) for Matrix<f64> and Matrix<i64> on small integers against an i64 model (all operator forms, compound assignments, products with matrices and vectors, transposes, row/column getters, eye); (3) data-movement histories (element/row/column writes, swap_rows, swap_elem, delete_row incl. the last row, resize, transposes, fill_band, clone) on f64 matrices with non-dyadic mixed-magnitude values, compared bitwise after every step together with norm_max/1/inf/frob of the current matrix; \
          in (1) and (3) the matrix must also compare == to a freshly built matrix with the same entries. \
          Non-trivial: algebra with r != c or an empty dimension; history of >= 5 steps with a shape-changing step followed by a row/column operation; \
